@@ -63,6 +63,34 @@ def code_of(line: str) -> str:
     return line[41:45]
 
 
+def only_array_halves_merged(first: dict[str, str], second: dict[str, str]) -> bool:
+    """True if `second` is `first` minus array halves that a restore re-joins (recorded finding).
+
+    The library joins a 000A/22C9 ' I' to the preceding ' I' of the same code and source when they are
+    less than 3 s apart (detect_array_fragment).  Live, a packet that is not saved (an RQ, a W, a
+    superseded one) may have arrived between the two halves, so both were kept; restored, they are
+    adjacent and the second absorbs the first.  Only that pattern is recognised here: a lost packet
+    of those codes with a surviving ' I' of the same code and source less than 3 s after it.
+    """
+    import datetime as _dt
+
+    if any(k not in first or first[k] != v for k, v in second.items()):
+        return False
+    lost = {k: v for k, v in first.items() if k not in second}
+    if not lost:
+        return False
+    for k, v in lost.items():
+        if code_of(v) not in ("000A", "22C9") or v[4:6] != " I":
+            return False
+        t0 = _dt.datetime.fromisoformat(k)
+        if not any(
+            code_of(v2) == code_of(v) and v2[4:6] == " I" and v2[11:20] == v[11:20] and 0 < (_dt.datetime.fromisoformat(k2) - t0).total_seconds() < 3.0
+            for k2, v2 in second.items()
+        ):
+            return False
+    return True
+
+
 def content_check(ctx, gwy, pkts: dict[str, str], include_expired: bool, meta: dict[str, Any]) -> None:
     from ramses_tx.message import Message
     from ramses_tx.packet import Packet
@@ -205,6 +233,8 @@ async def check_snapshot(loop, ctx, rig: Rig, include_expired: bool, meta: dict[
             ctx.count("fixpoint.schema_compared")
         if pkts_b != pkts_a and lost_only_expired(gwy_b, pkts_a, pkts_b):
             ctx.count("fixpoint.expired_purged")
+        elif pkts_b != pkts_a and only_array_halves_merged(pkts_a, pkts_b):
+            ctx.violate("C16|fixpoint|array-halves-rejoined-on-restore", "two halves of an array (000A/22C9) that were kept apart live are joined when restored: the snapshot loses a packet", {"diff": diff_pkts(pkts_a, pkts_b), "stack": rig.stack, "history": meta})
         elif pkts_b != pkts_a:
             d = diff_pkts(pkts_a, pkts_b)
             codes = sorted({code_of(v) for v in list(d["only_in_first"].values()) + list(d["only_in_second"].values())} | {code_of(v[0]) for v in d["changed"].values()})
@@ -232,6 +262,8 @@ async def check_snapshot(loop, ctx, rig: Rig, include_expired: bool, meta: dict[
             ctx.count("idempotence.compared")
             if pkts_c != ref_pkts and lost_only_expired(g, ref_pkts, pkts_c):
                 ctx.count("idempotence.expired_purged")
+            elif pkts_c != ref_pkts and only_array_halves_merged(ref_pkts, pkts_c):
+                ctx.violate("C16|fixpoint|array-halves-rejoined-on-restore", "two halves of an array (000A/22C9) that were kept apart live are joined when restored: the snapshot loses a packet", {"diff": diff_pkts(ref_pkts, pkts_c), "stack": rig.stack, "history": meta})
             elif pkts_c != ref_pkts:
                 d = diff_pkts(ref_pkts, pkts_c)
                 codes = sorted({code_of(v) for v in list(d["only_in_first"].values()) + list(d["only_in_second"].values())} | {code_of(v[0]) for v in d["changed"].values()})
